@@ -222,6 +222,38 @@ fn load_module(w: &mut World, src: &Path, file: &Path, module: &str, cfg: &Cfg) 
             return;
         }
     };
+    // every attribute of the file must be one the translator interprets or one that cannot change behaviour;
+    // anything else (e.g. cfg_attr wrapping a serde attribute) is reported as unreadable rather than silently dropped
+    struct AttrAudit(Vec<String>);
+    impl<'ast> syn::visit::Visit<'ast> for AttrAudit {
+        fn visit_attribute(&mut self, a: &'ast Attribute) {
+            const PLAIN: [&str; 22] = [
+                "allow", "warn", "deny", "forbid", "cfg", "default", "derive", "inline", "macro_use", "non_exhaustive", "repr", "serde",
+                "serde_indexed", "test", "doc", "no_std", "must_use", "deprecated", "should_panic", "ignore", "cold", "track_caller",
+            ];
+            let name = a.path().to_token_stream().to_string().replace(' ', "");
+            if PLAIN.contains(&name.as_str()) || name == "rustfmt::skip" {
+                return;
+            }
+            if name == "cfg_attr" {
+                if let Ok(p) = a.parse_args_with(syn::punctuated::Punctuated::<Meta, syn::Token![,]>::parse_terminated) {
+                    if p.iter().skip(1).all(|m| match m {
+                        Meta::List(l) => l.path.is_ident("derive") || l.path.is_ident("allow") || l.path.is_ident("doc"),
+                        Meta::Path(q) => q.is_ident("no_std") || q.is_ident("inline"),
+                        Meta::NameValue(nv) => nv.path.is_ident("doc"),
+                    }) {
+                        return;
+                    }
+                }
+            }
+            self.0.push(a.to_token_stream().to_string());
+        }
+    }
+    let mut audit = AttrAudit(vec![]);
+    syn::visit::Visit::visit_file(&mut audit, &parsed);
+    for a in audit.0 {
+        w.unknown.push(format!("{}: attribute the translator does not interpret: {}", file.display(), a));
+    }
     collect_items(w, src, file, module, cfg, parsed.items);
 }
 
@@ -1569,13 +1601,14 @@ fn main() {
     }
     let n_unknown = o.matches("RUnknown").count() + o.matches("TUnknown").count();
     let report = format!(
-        "{{\"files\": {:?}, \"structs\": {}, \"enums\": {}, \"tables\": {}, \"consts\": {}, \"unknown\": {}, \"changed\": {}}}",
+        "{{\"files\": {:?}, \"structs\": {}, \"enums\": {}, \"tables\": {}, \"consts\": {}, \"unknown\": {}, \"unknown_items\": {:?}, \"changed\": {}}}",
         w.files,
         n_struct,
         n_enum,
         n_table,
         w.consts.len(),
         n_unknown,
+        w.unknown,
         old != o
     );
     if args.len() > 3 {
